@@ -7,6 +7,7 @@ import SC.Buffer
 import SC.FS
 import SC.Conc
 import SC.Attr
+import SC.Resolver
 import SC.Generated.Tables
 open SC SC.Proto
 
@@ -270,12 +271,31 @@ def attrQuery (toks : List String) : String :=
     | _, _ => "bad-query"
   | _ => "bad-query"
 
+/-- `res ty:exactBlocked:subBlocked:freshCat ...`: answers of the resolver model over a history;
+the predicates are "the value's own cache-free category is c", so instance-dependent
+classification is expressible; the blocklist mode is the one read from the source -/
+def resQuery (toks : List String) : String :=
+  let rows := toks.filterMap (fun t =>
+    match (t.splitOn ":").map String.toInt? with
+    | [some ty, some eb, some sb, some fr] => some (ty.toNat, eb == 1, sb == 1, fr)
+    | _ => none)
+  let preds : List (Nat × (Resolver.Obj → Bool)) := (List.range 8).map (fun c => (c, fun o => o.inst == c + 1))
+  let bl := (rows.filter (·.2.1)).map (·.1)
+  let mode : Resolver.BlockMode := match Generated.blocklistMode with
+    | .subclassAware => .subclassAware
+    | _ => .exactType
+  let objs : List Resolver.Obj := rows.map (fun r => ⟨r.1, r.2.2.1, if r.2.2.2 < 0 then 0 else r.2.2.2.toNat + 1⟩)
+  let ans := (Resolver.runHistory ⟨preds, bl, mode, []⟩ objs).2
+  "answers: " ++ " ".intercalate (ans.map (fun a => match a with | some c => toString c | none => "-1"))
+
 def step (d : Drv) (line : String) : Drv × List String :=
   let toks := (line.splitOn " ").filter (· ≠ "")
   match d.bst, toks with
   | _, "fs" :: rest => (d, [fsQuery rest])
   | _, "br" :: rest => (d, [brQuery rest])
   | _, "attr" :: rest => (d, [attrQuery rest])
+  | _, "res" :: rest => (d, [resQuery rest])
+  | _, ["resmode"] => (d, [match Generated.blocklistMode with | .subclassAware => "mode: subclassAware" | .exactType => "mode: exactType" | .unknownMode => "mode: unknown"])
   | some b, t :: ts =>
     if t == "reset" || t == "breset" || t == "flt" || t == "fam" || t == "#" then stepL1 d toks
     else bstep d b (t :: ts)
